@@ -20,6 +20,41 @@ theorem sanitized_inside (fname : Str) (dest p : PPath) (h : sanitizedOutputPath
     simpa [isRelativeTo, relativeTo, Bool.and_eq_true] using hrel
   · rw [if_neg hrel] at h; simp at h
 
+/-- the same for extraction into the working directory (`extractall()` without a path), after
+    the repair: what is returned is a RELATIVE path, and joined to the working directory it is
+    exactly the path that was checked to lie under it -/
+theorem sanitized_inside_cwd (fname : Str) (cwd p : PPath) (h : sanitizedOutputPathCwd fname cwd = some p) :
+    p.isAbsolute = false ∧
+    (canonicalPath cwd).comps ++ p.comps =
+      (canonicalPath (cwd.join (parse (if fname.head? = some '/' then dropWhileSlash fname else fname)))).comps := by
+  unfold sanitizedOutputPathCwd at h
+  simp only [] at h
+  generalize canonicalPath (cwd.join (parse (if fname.head? = some '/' then dropWhileSlash fname else fname))) = q at h ⊢
+  by_cases hrel : isRelativeTo q cwd = true
+  · rw [if_pos hrel] at h
+    simp only [Option.some.injEq] at h
+    subst h
+    refine ⟨by simp [PPath.isAbsolute], ?_⟩
+    have hp : (canonicalPath cwd).comps.isPrefixOf q.comps = true := by
+      simp only [isRelativeTo, relativeTo, Bool.and_eq_true] at hrel
+      exact hrel.2
+    rw [List.isPrefixOf_iff_prefix] at hp
+    obtain ⟨t, ht⟩ := hp
+    simp only []
+    rw [← ht, List.drop_left]
+  · rw [if_neg hrel] at h; simp at h
+
+/-- the pinned working-directory branch (defect repaired in 6d3f35c): the name `.//etc/x` is
+    checked as `cwd/etc/x` but returned as the absolute path `/etc/x` -/
+theorem cwd_branch_pinned_ce :
+    (sanitizedOutputPathCwdPinned ".//etc/x".toList (parse "/home/u".toList)).map (fun p => (p.isAbsolute, p.toStr)) =
+      some (true, "/etc/x".toList) ∧
+    (sanitizedOutputPathCwd ".//etc/x".toList (parse "/home/u".toList)).map (fun p => (p.isAbsolute, p.toStr)) =
+      some (false, "etc/x".toList) := by
+  decide
+
+example : sanitizedOutputPathCwd "a/../b/./c".toList (parse "/w".toList) = some { root := [], comps := ["b".toList, "c".toList] } := by decide
+
 /-- With the guard of the repaired extraction — refuse a step whose resolved location is not
     under the resolved destination, never follow a final link when writing a file — every
     location any step mutates lies under the destination: for every initial file system,
